@@ -51,6 +51,12 @@ BLIND = {  # did the owning check exist, unchanged, before the change was seen?
     'b9-C17': 'yes - caught (C17.R7 / C17.R11 narrow range at 16 bits)',
     'b9-C18': 'yes - caught (C18.R3, C18.R9 metric argument order)',
     'b9-C19': 'yes - MISSED; then C19.R12: model-wide tables are append-only in every transformation',
+    'b10-C03': 'yes - MISSED; then a stale-statistics case in the whole-pipeline simulation (selected operator left float) and the error-discipline rule C03.R15 = C10.R10',
+    'b10-C05': 'yes - caught (C05.R7 = C17.R7 formula identity of uniform_quantize)',
+    'b10-C08': 'yes - caught (whole-pipeline, calibrate-then-plan and selection simulations: C08.R7/R8, C10.R7/R8, C03.R12/R14, ...)',
+    'b10-C13': 'yes - MISSED (lattice did not vary the activation granularity / dtype); lattice extended to 24 288 rows',
+    'b10-C15': 'yes - missed by C15 (C01.R1 and C19.R7 reported); C15.R9 shares the name-uniqueness rule',
+    'b10-C16': 'yes - MISSED; then C14.R7 (no mutable class-body object mutated through instances) and the ownership clause of C16.R4',
     'b3-C18': 'yes (written minutes before) - MISSED, then fixed', 'b3-C19': 'yes - caught by C10.R2 only, C19.R8 added', 'b3-C01': 'yes - MISSED (declared blind spot), then fixed',
 }
 
